@@ -4,19 +4,28 @@ NOTES = "Contract-based deductive verification of the real code: tools/vx copies
 NA = {
     "C17": "no contract can express that two tasks overlap in time or that one task's progress does not wait on another's: it is a statement about the executor and wall-clock, which rule R1 (.await removed) drops by construction and for which neither Verus nor Kani has a model (DESIGN.md section 7, C17)",
 }
+INC_NOTE = "Assumed: the ghost world (A-fs: directory listing, metadata, file contents are functions of an instant; walkdir, is_file and the .zinoma pruning are not verified), A-codec (bincode decodes exactly what was fully written; SeaHasher is a function of the bytes), A-cmd (commands used as resources do not modify declared files), A-all (async_utils::all/both, join, try_join_all, Result::map, collect; the closures themselves are outlined and verified), vstd std specs + Borrow<Path> for PathBuf (A-std), R1."
 ACT_NOTE = "Assumed: channel FIFO/lossless and oracle contracts of the select! arms (A-chan), derived Hash/Eq/Clone (A-hash, A-clone), vstd std specs + HashMap::get_mut/remove_entry/HashSet::clone (A-std), process stubs (A-proc), R1 (await dropped), R16 (case split per select arm). From per-actor invariants to the whole-run statement: composition argument DESIGN section 8 (A-bridge)."
 TEXT = {
     "C01": {
         "level": "Proof, for every dependency set and every sequence of delivered events: loop invariants of the three actor loops (pending set == function of the delivery log; a start only when the latest word of every dependency, both kinds, is Ok; Ok is only told in a state reached by a successful, not-invalidated run / spawn / empty pending set; every message carries the sender's id), and the relay forwards every message unchanged to the actor launched for its addressee. An inductive invariant over an arbitrary event sequence covers every interleaving and graph, which tests cannot.",
         "note": ACT_NOTE,
     },
+    "C02": {
+        "level": "Proof, for every resource declaration and every world: incremental::run returns Skipped only if a decodable record existed and, against it, the listed file set has the same cardinality and every listed file is recorded (hence the sets are equal - lemma), each file still has the recorded mtime or the recorded hash of its whole content (the hash loop is proved to consume the file to the end), every command still prints the recorded text, for inputs and for outputs; the script is not awaited. The world is a ghost snapshot with no assumption relating it before and after a script, so 'every sequence of file-system operations between two runs' is the universally quantified default.",
+        "note": INC_NOTE,
+    },
+    "C03": {
+        "level": "Proof of the safety half: after a Completed run whose state could be computed and stored, the record is exactly the state of the inputs as they were before the script started and of the outputs after it; a record that is the state of the current world compares as unchanged (reflexivity, per file and per command, with the command key distinguishing directory and text); a target without input is never skipped.",
+        "note": INC_NOTE + " The cross-process statement is a lemma over these two contracts under A-codec.",
+    },
     "C04": {
         "level": "Proof of the safety skeleton of termination, for every graph and interleaving: AckInv (every registered requester has been told the current truth, also one registering after completion), the start guard is exactly the stated condition, the first requester makes the actor request every dependency, the relay forwards every message, root sets shrink exactly on the matching Ok, the loop exits exactly on termination or both sets empty, relay-side inbox sends never block (wait-for discipline), no unwrap/index can panic. A lost wake-up or queue dead-lock is a reachable state violating one of these. Liveness itself (fairness, script termination) is not claimed.",
         "note": ACT_NOTE + " Not covered: executor fairness, that scripts terminate, any time bound.",
     },
     "C05": {
-        "level": "Proof (partial until the INC unit is finished): build_target returns Completed only for a successful exit status, Cancelled only after a cancellation message, Err when nothing was spawned; a failed run is never acknowledged to requesters. The crash-as-precondition obligations on incremental::run (delete-first, write-on-success-only, corrupt record dropped) are added by the INC unit.",
-        "note": ACT_NOTE + " A-codec prefix-freeness and kernel ordering for the crash points (INC).",
+        "level": "Proof with crash points as preconditions: awaiting the build future requires that no record exists for the target (so at every instant between deciding to run and finishing the write there is no decodable record: File::create truncates first, a failed or partial serialisation leaves Garbage); on Err or Cancelled either no record exists or the build was not started and the record is the old one or was dropped as corrupt; an undecodable record yields None and is deleted, with no unwrap; build_target returns Completed only for a successful exit status, Cancelled only after a cancellation message; a failed run is never acknowledged.",
+        "note": INC_NOTE + " " + ACT_NOTE + " Assumed for crash points: A-codec prefix-freeness (a partial write does not decode), the kernel does not reorder the unlink after the script's start.",
     },
     "C06": {
         "level": "Proof of the safety obligations behind convergence: an invalidation sets to_execute and tells every requester; a pending invalidation is never cleared except by a start (also not by a failure); a run invalidated in flight is not acknowledged; dependency invalidation is recorded before anything else; the watch relay forwards every message and does not return on a failure. Convergence as liveness is not claimed.",
@@ -37,6 +46,10 @@ TEXT = {
     "C11": {
         "level": "Proof: execute_once returns Ok without awaiting termination exactly when termination was received or no root reported an actual service; a root counts as service root iff its Ok{Service} had actual; build actors answer service requests with actual=false, service actors with true, aggregates with 'some dependency reported actual'; at most one child of a service actor is live and restart stops before it spawns; the service actor ends with its child killed and waited.",
         "note": ACT_NOTE,
+    },
+    "C18": {
+        "level": "Proof (frame conditions): incremental::run, delete_saved_env_state and save_env_state change the state store at the target's own path only, and that path is a function of (project_dir, target id) only; the skip decision is a function of the record at that path and of the world restricted to the target's own resources (nothing else is read by the contracted functions).",
+        "note": INC_NOTE + " Not covered: injectivity of the file-name formatting; that project_dir is canonical (load path).",
     },
     "C20": {
         "level": "Proof: an aggregate asks every dependency on the first requester of a kind, acknowledges upward exactly when nothing of that kind is pending (also at once for an empty aggregate or a late requester), reports actual = some dependency reported actual, forwards invalidation only after a stimulus, never executes anything itself.",
